@@ -355,25 +355,15 @@ class PiecewiseConstantCoalescent(AbstractCoalescentDistribution):
         """
         node_mask_sorted, lchoose2, intervals = self._sorted_terms(node_heights)
 
-        if self.theta.dim() > 1:
-            sufficient_statistics = []
-            for i in range(self.theta.shape[-2]):
-                groups = torch.tensor_split(
-                    lchoose2[i] * intervals[i],
-                    torch.where(node_mask_sorted[i] == -1)[0],
-                )
-                ss = torch.tensor(list(map(torch.sum, groups[:-1])))
-                sufficient_statistics.append(ss)
-            sufficient_statistics = torch.stack(sufficient_statistics)
-        else:
-            groups = torch.tensor_split(
-                lchoose2 * intervals, torch.where(node_mask_sorted == -1)[0]
-            )
-            sufficient_statistics = torch.tensor(list(map(torch.sum, groups[:-1])))
-
-        internal_shape = sufficient_statistics.shape[:-1] + (
+        # index of the population size of every interval (same rule as in log_prob)
+        indices = (node_mask_sorted == -1).to(dtype=torch.long).cumsum(-1)[..., :-1]
+        terms = lchoose2 * intervals
+        internal_shape = terms.shape[:-1] + (
             int((node_heights.shape[-1] + 1) / 2) - 1,
         )
+        sufficient_statistics = torch.zeros(
+            internal_shape, dtype=terms.dtype
+        ).scatter_add(-1, indices, terms)
         return sufficient_statistics, torch.ones(internal_shape)
 
     def log_prob(self, node_heights: torch.Tensor) -> torch.Tensor:
